@@ -365,13 +365,28 @@ func genC06(r *Rand, thor bool) C06Case {
 }
 
 func runC06(c *Ctx) {
-	c.R.Rule = "registry codecs .201/.202, one frame per case over Rows/Cols 1..80 grid, 1-pixel-wide/high, random to 100/600; 8/16 bit allocated, BitsStored <= BitsAllocated; SPP 1/3; signed; htj2k.Parameters block sizes 4..64, levels 0..6 (or nil); decode through the codec or through jpeg2000.Decoder with the HT block decoder factory; plus all third-party fixtures of test-data/htj2k/interop decoded against their raw images; non-trivial = non-constant content"
+	c.R.Rule = "registry codecs .201/.202, one frame per case over Rows/Cols 1..80 grid, 1-pixel-wide/high, random to 100/600, strips longer than 32768; 8/16 bit allocated, BitsStored <= BitsAllocated; SPP 1/3; signed; htj2k.Parameters block sizes 4..64, levels 0..6 (or nil); decode through the codec or through jpeg2000.Decoder with the HT block decoder factory; plus all third-party fixtures of test-data/htj2k/interop decoded against their raw images; non-trivial = non-constant content"
 	n := c.N(500, 8000)
 	rng := c.Rng.Fork()
 	cases := make([]C06Case, n)
 	for i := range cases {
 		cases[i] = genC06(rng, c.Thor)
 	}
+	// strips longer than the maximal precinct size 2^15 (sub-bands wider / higher than 32768 samples)
+	strips := [][3]int{{32770, 1, -1}, {1, 32770, -1}, {33000, 3, 0}, {40000, 1, 0}, {2, 33333, 0}, {65535, 1, -1}}
+	if c.Thor {
+		strips = append(strips, [3]int{1, 65535, -1}, [3]int{65535, 2, 1}, [3]int{3, 40000, 0})
+	}
+	for i, st := range strips {
+		k := C06Case{F: FrameCase{Seed: rng.U64(), Cols: st[0], Rows: st[1], BA: []int{8, 16}[i%2], SPP: 1, Content: i % 2}, TS: []string{"201", "202"}[i%2],
+			BW: 64, BH: 64, Levels: st[2], Nil: st[2] < 0, ViaDec: i%3 == 2}
+		k.F.BS = k.F.BA
+		if k.Nil {
+			k.Levels = 0
+		}
+		cases = append(cases, k)
+	}
+	n = len(cases)
 	if raws := c.ReplayInputs("htj2k_lossless_codec"); raws != nil {
 		cases = cases[:0]
 		for _, r := range raws {
